@@ -478,6 +478,7 @@ class Engine:
         if k == 'downcast':
             lst, i = self.loc(fr, p[1])
             v = lst[i]
+            while isinstance(v, CellObj) and v.kind == 'box': lst, i = v.c, 0; v = lst[i]          # a variant of the content of a Box
             if not isinstance(v, Enum) or v.v != p[2]:
                 raise Unsupported('downcast %s of %r' % (p[2], v))
             return (lst, i)
@@ -851,6 +852,7 @@ class Engine:
 
     def discr(self, v):
         if isinstance(v, Ref): v = v.get()
+        while isinstance(v, CellObj) and v.kind == 'box': v = v.c[0]          # match on the content of a Box (deref patterns / box moves)
         if isinstance(v, Enum):
             ty = v.ty
             if ty is None:
